@@ -79,6 +79,9 @@ fn histories(ctx: &Ctx) -> usize {
   let mut hid = 0i64;
   for line in f.lines() {
     let line = line.unwrap();
+    if !line.contains("\"h\"") {
+      continue;
+    }
     let v = ints(&line);
     if v.is_empty() || v.len() % 3 != 0 {
       continue;
@@ -241,7 +244,15 @@ fn mixed(ctx: &Ctx) -> usize {
   cache_reset();
   hooks::install();
   let mut qs: Vec<(i64, Vec<i64>, Vec<i64>)> = Vec::new();
-  for _ in 0..n {
+  for qi in 0..n {
+    // the memo model carries the whole memo as a function: histories are validated in stretches of 4000 queries, the memo
+    // is reset between stretches (validation cost grows with the square of the memo size)
+    if qi > 0 && qi % 4000 == 0 {
+      hsink.segment();
+      dump_hooks(&mut hsink, true);
+      cache_reset();
+      hooks::install();
+    }
     let fam = rng.range(0, NFAM - 1);
     let a = gen(&mut rng, fam);
     let w = answer(fam, &a);
@@ -402,8 +413,110 @@ fn lazy(ctx: &Ctx) -> usize {
   sink.total
 }
 
+const LP_BAD: i64 = -999;
+const LP_UNOBS: i64 = -1000001;
+
+/// Mode C for the per-value lazy memos: every client program generated from Lazy.tla (views, clones, steps over two
+/// registers), run on a real LunarDay and a real LunarHour.  One `lp` event per (program, type): the position each get
+/// reports (offset from the base value, in the type's own unit) and an auxiliary observable (pillar index).
+fn lazy_programs(ctx: &Ctx) -> usize {
+  let path = match &ctx.cases {
+    Some(p) => p.clone(),
+    None => return 0,
+  };
+  let mut sink = ctx.sink("Trace_C10", "lprog");
+  let mut rng = ctx.rng(9100);
+  let f = BufReader::new(std::fs::File::open(path).unwrap());
+  sink.segment();
+  for line in f.lines() {
+    let line = line.unwrap();
+    if !line.contains("\"ops\"") {
+      continue;
+    }
+    let ops = ints(&line);
+    if ops.is_empty() || ops.len() % 4 != 0 {
+      continue;
+    }
+    // base value: any lunar day after the reform seams, day <= 29 (exists in every month), any hour
+    let y = rng.range(260, 9990);
+    let m = rng.range(1, 12);
+    let dd = rng.range(1, 29);
+    let hh = rng.range(0, 23);
+    // ---- LunarDay: unit = one day ----
+    if let (Some(a), Some(b)) = (catch(|| LunarDay::from_ymd(y as isize, m as isize, dd as usize)), catch(|| LunarDay::from_ymd(y as isize, m as isize, dd as usize))) {
+      let jb = catch(|| jdn_of(LunarDay::from_ymd(y as isize, m as isize, dd as usize).get_solar_day().get_julian_day().get_day()).0).unwrap_or(LP_BAD);
+      let mut regs: Vec<Option<LunarDay>> = vec![Some(a), Some(b)];
+      let mut got: Vec<i64> = Vec::new();
+      let mut aux: Vec<i64> = Vec::new();
+      for op in ops.chunks(4) {
+        let (c, r, q, d) = (op[0], (op[1] - 1) as usize, (op[2] - 1) as usize, op[3]);
+        let src = regs[r].clone();
+        match c {
+          1 | 2 | 3 => {
+            // the clone for `via` is taken here, the views are asked on the register itself otherwise
+            let res = match (c, regs[r].as_ref()) {
+              (_, None) => None,
+              (1, Some(v)) => catch(|| { let s = v.get_solar_day(); (jdn_of(s.get_julian_day().get_day()).0 - jb, v.get_sixty_cycle().get_index() as i64) }),
+              (2, Some(v)) => catch(|| { let s = v.get_sixty_cycle_day(); (jdn_of(s.get_solar_day().get_julian_day().get_day()).0 - jb, s.get_sixty_cycle().get_index() as i64) }),
+              (_, Some(v)) => catch(|| { let s = v.clone().get_sixty_cycle_day(); (jdn_of(s.get_solar_day().get_julian_day().get_day()).0 - jb, s.get_sixty_cycle().get_index() as i64) }),
+            };
+            let (g, x) = res.unwrap_or((LP_BAD, LP_BAD));
+            got.push(g);
+            aux.push(x);
+          }
+          4 => regs[q] = src,
+          5 => regs[q] = src.and_then(|v| catch(|| v.next(d as isize))),
+          _ => {}
+        }
+      }
+      sink.put(Ev::new("lp").i("s", 1).i("t", 0).a("v", &[y, m, dd, 0]).i("jb", jb).i("hb", 0).a("ops", &ops).a("got", &got).a("aux", &aux).done());
+    }
+    // ---- LunarHour: unit = one double-hour (next(n) adds 2n hours) ----
+    let mk = || catch(|| LunarHour::from_ymd_hms(y as isize, m as isize, dd as usize, hh as usize, 30, 15));
+    if let (Some(a), Some(b)) = (mk(), mk()) {
+      let base = mk().and_then(|v| catch(|| v.get_solar_time()));
+      let jb = base.as_ref().map(|t| jdn_of(t.get_julian_day().get_day()).0).unwrap_or(LP_BAD);
+      let off = |t: &tyme4rs::tyme::solar::SolarTime| -> i64 {
+        match base.as_ref() {
+          Some(b0) => {
+            let sec = t.subtract(*b0) as i64;
+            if sec % 7200 == 0 { sec / 7200 } else { LP_BAD }
+          }
+          None => LP_BAD,
+        }
+      };
+      let mut regs: Vec<Option<LunarHour>> = vec![Some(a), Some(b)];
+      let mut got: Vec<i64> = Vec::new();
+      let mut aux: Vec<i64> = Vec::new();
+      for op in ops.chunks(4) {
+        let (c, r, q, d) = (op[0], (op[1] - 1) as usize, (op[2] - 1) as usize, op[3]);
+        let src = regs[r].clone();
+        match c {
+          1 | 2 | 3 => {
+            let res = match (c, regs[r].as_ref()) {
+              (_, None) => None,
+              (1, Some(v)) => catch(|| { let t = v.get_solar_time(); (off(&t), v.get_sixty_cycle().get_index() as i64) }),
+              (2, Some(v)) => catch(|| { let s = v.get_sixty_cycle_hour(); (off(&s.get_solar_time()), s.get_sixty_cycle().get_index() as i64) }),
+              // get_eight_char works on a clone of the value: the instant is not observable, the hour pillar is
+              (_, Some(v)) => catch(|| { let e = v.get_eight_char(); (LP_UNOBS, e.get_hour().get_index() as i64) }),
+            };
+            let (g, x) = res.unwrap_or((LP_BAD, LP_BAD));
+            got.push(g);
+            aux.push(x);
+          }
+          4 => regs[q] = src,
+          5 => regs[q] = src.and_then(|v| catch(|| v.next(d as isize))),
+          _ => {}
+        }
+      }
+      sink.put(Ev::new("lp").i("s", 1).i("t", 1).a("v", &[y, m, dd, hh]).i("jb", jb).i("hb", hh).a("ops", &ops).a("got", &got).a("aux", &aux).done());
+    }
+  }
+  sink.total
+}
+
 pub fn run(ctx: &Ctx) -> usize {
-  histories(ctx) + collisions(ctx) + pools(ctx) + threads(ctx) + mixed(ctx) + lazy(ctx)
+  histories(ctx) + collisions(ctx) + pools(ctx) + threads(ctx) + mixed(ctx) + lazy(ctx) + lazy_programs(ctx)
 }
 
 /// `tvh ask fam a1 a2 ...` — one query in a fresh process
